@@ -692,6 +692,49 @@ func (c *txctx) battery1() (out []*disc) {
 			}
 		}
 	}
+	// bulk fetches in an order that differs from the order on disk, with a
+	// different region per block: every answer belongs to its own request
+	if allPresent && len(blocks) >= 2 {
+		var regs []database.BlockRegion
+		var wants [][]byte
+		var rev []chainhash.Hash
+		for k := len(blocks) - 1; k >= 0; k-- {
+			bl := blocks[k]
+			off, ln := uint32(k+1), uint32(3+2*k)
+			if int(off+ln) > len(bl.raw) {
+				off, ln = 0, uint32(len(bl.raw))
+			}
+			regs = append(regs, database.BlockRegion{Hash: &blocks[k].hash, Offset: off, Len: ln})
+			wants = append(wants, bl.raw[off:off+ln])
+			rev = append(rev, bl.hash)
+		}
+		// a middle block first as well (neither sorted nor reversed)
+		if len(blocks) >= 3 {
+			regs[0], regs[1] = regs[1], regs[0]
+			wants[0], wants[1] = wants[1], wants[0]
+		}
+		gots, err := tx.FetchBlockRegions(regs)
+		if err != nil || len(gots) != len(wants) {
+			rep(&disc{Class: "FetchBlockRegions/error-code", What: fmt.Sprintf("FetchBlockRegions over %d stored blocks in non-disk order: %d results, err=%v", len(regs), len(gots), err)})
+		} else {
+			for k := range wants {
+				if !bytes.Equal(gots[k], wants[k]) {
+					rep(&disc{Class: "FetchBlockRegions/bytes", What: fmt.Sprintf("FetchBlockRegions in non-disk order: answer %d (off=%d len=%d) is %s, stored bytes %s", k, regs[k].Offset, regs[k].Len, hx(gots[k]), hx(wants[k]))})
+					break
+				}
+			}
+		}
+		if rbs, err := tx.FetchBlocks(rev); err != nil || len(rbs) != len(rev) {
+			rep(&disc{Class: "FetchBlocks/error-code", What: fmt.Sprintf("FetchBlocks in reverse order: err=%v", err)})
+		} else {
+			for k := range rev {
+				if !bytes.Equal(rbs[k], blocks[len(blocks)-1-k].raw) {
+					rep(&disc{Class: "FetchBlocks/bytes", What: fmt.Sprintf("FetchBlocks in reverse order: answer %d is not the block asked for", k)})
+					break
+				}
+			}
+		}
+	}
 	return out
 }
 
